@@ -331,6 +331,8 @@ def insertBefore (h : Heap) (x : Nat) (args : List Arg) : Except Err Heap :=
 def insertAfterLoop (h : Heap) (p : Nat) : Nat → List Arg → Except Err Heap
   | _, [] => .ok h
   | anchor, a :: as =>
+    -- `if successor is anchor: continue` (the same element twice in a row: it was just put in place)
+    if isSelf anchor a then insertAfterLoop h p anchor as else
     match extractArg h a with
     | .error e => .error e
     | .ok h1 =>
